@@ -231,6 +231,21 @@ fn templates() -> Vec<Template> {
         Template { name: "command-name-not-bulk", class: "command-name", slots: 1, build: |s| one(RespValue::Array(vec![RespValue::SimpleString(format!("PI{}NG", s[0]))])) },
         Template { name: "command-name-not-utf8", class: "command-name", slots: 1, build: |s| one(RespValue::Array(vec![bulk(&[&[0xffu8][..], s[0].as_bytes()].concat())])) },
         Template { name: "query-not-utf8", class: "query-text", slots: 1, build: |s| one(RespValue::Array(vec![bulk(b"GRAPH.QUERY"), bulk(b"default"), bulk(&[b"RETURN '", s[0].as_bytes(), &[0xffu8][..], b"'"].concat())])) },
+        // texts longer than 1 KiB with the client's bytes near the end, in the middle and near the start:
+        // length-dependent reply paths (truncation, elision, chunked copies) must sanitise every part
+        Template { name: "long-unknown-command-tail", class: "command-name", slots: 2, build: |s| one(cmd(&[format!("{}{}Y{}", "X".repeat(1100), s[0], s[1]).as_bytes()])) },
+        Template { name: "long-unknown-command-head", class: "command-name", slots: 1, build: |s| one(cmd(&[format!("X{}{}", s[0], "Y".repeat(1100)).as_bytes()])) },
+        Template { name: "long-unknown-command-middle", class: "command-name", slots: 1, build: |s| one(cmd(&[format!("{}{}{}", "X".repeat(700), s[0], "Y".repeat(700)).as_bytes()])) },
+        Template { name: "long-graph-name-tail", class: "graph-name", slots: 2, build: |s| one(cmd(&[b"GRAPH.QUERY", format!("{}{}h{}", "g".repeat(1100), s[0], s[1]).as_bytes(), b"RETURN 1"])) },
+        Template { name: "long-invalid-date-tail", class: "string-literal", slots: 2, build: |s| one(q(format!("RETURN date('{}{}+OK{}')", "9".repeat(1100), s[0], s[1]))) },
+        Template { name: "long-parse-error-tail", class: "query-text", slots: 2, build: |s| one(q(format!("RETURN {} +{} ){}", "1 + ".repeat(300), s[0], s[1]))) },
+        Template { name: "long-echo-tail", class: "payload", slots: 2, build: |s| one(cmd(&[b"ECHO", format!("{}{}b{}", "a".repeat(1100), s[0], s[1]).as_bytes()])) },
+        Template {
+            name: "long-stored-value-in-error",
+            class: "stored-value",
+            slots: 2,
+            build: |s| Built { tenants: vec![], cmds: vec![q(format!("CREATE (n:L {{d: '{}{}:42{}'}})", "9".repeat(1100), s[0], s[1])), q("MATCH (n:L) RETURN date(n.d)".to_string()), q("MATCH (n:L) RETURN n.d".to_string())] },
+        },
         Template { name: "null-arguments", class: "command-name", slots: 1, build: |s| one(RespValue::Array(vec![bulk(b"GRAPH.QUERY"), RespValue::BulkString(None), bulk(s[0].as_bytes())])) },
     ]
 }
